@@ -17,6 +17,58 @@ pub fn recv_flow(method: &'static str) -> F<RecvResponse> {
     fast_to_recv(&cfg).expect("plain request reaches RecvResponse")
 }
 
+/// The ways a flow can arrive in the receive-response state. The response head must be judged
+/// the same on all of them.
+#[derive(Clone, Copy, Debug, PartialEq, Eq)]
+pub enum Route {
+    Plain(&'static str),
+    /// body-carrying request, body sent
+    Body,
+    /// Expect: 100-continue, caller gave up waiting, body sent
+    ExpectGaveUp,
+    /// Expect: 100-continue, the server's (non-100) answer was seen while awaiting: straight to RecvResponse
+    ExpectRefused,
+}
+
+impl Route {
+    fn name(&self) -> &'static str {
+        match self {
+            Route::Plain(_) => "plain",
+            Route::Body => "after-body",
+            Route::ExpectGaveUp => "expect-gave-up",
+            Route::ExpectRefused => "expect-refused",
+        }
+    }
+}
+
+/// `seen`: what the server had sent when the flow was in Await100 (only used by ExpectRefused; it must
+/// be enough for the flow to decide). None if the route cannot be taken with that input.
+pub fn recv_flow_via(route: Route, seen: &[u8]) -> Option<F<RecvResponse>> {
+    use ureq_proto::client::flow::{Await100Result, SendRequestResult};
+    match route {
+        Route::Plain(m) => Some(recv_flow(m)),
+        Route::Body => fast_to_recv(&ReqCfg::new("POST", "http://h.test/").h("content-length", b"3")).ok(),
+        Route::ExpectGaveUp => fast_to_recv(&ReqCfg::new("PUT", "http://h.test/").h("expect", b"100-continue")).ok(),
+        Route::ExpectRefused => {
+            let cfg = ReqCfg::new("POST", "http://h.test/").h("expect", b"100-continue");
+            let mut f = build_flow(&cfg).ok()?.proceed();
+            write_head_big(&mut f).ok()?;
+            let mut a = match f.proceed().ok()?? {
+                SendRequestResult::Await100(a) => a,
+                _ => return None,
+            };
+            let n = a.try_read_100(seen).ok()?;
+            if n != 0 || a.can_keep_await_100() {
+                return None;
+            }
+            match a.proceed().ok()? {
+                Await100Result::RecvResponse(r) => Some(r),
+                _ => None,
+            }
+        }
+    }
+}
+
 fn check_complete(truth: &RespHead, hlen: usize, n: usize, obs: &RespObs, rec: &mut Rec, api: &str) -> bool {
     if n != hlen {
         rec.fail("C05/consumed-not-head-length", format!("{}: consumed {} for a head of {} bytes", api, n, hlen));
@@ -65,9 +117,32 @@ fn head_case(rng: &mut Rng, all_prefixes: bool, redirect_focus: bool, rec: &mut 
     } else {
         None
     };
-    // (a) a fresh flow per prefix
-    for &p in &prefixes {
-        let mut f = recv_flow(method);
+    // the point from which a flow awaiting 100 can tell that this is not a 100: the end of the
+    // first field line, or of the whole head when it has no fields
+    let decided_at = {
+        let sl = head.windows(2).position(|w| w == b"\r\n").unwrap() + 2;
+        match truth.fields.first() {
+            Some(f) => sl + f.name.len() + 1 + f.lead.len() + f.value.len() + f.trail.len() + 2,
+            None => hlen,
+        }
+    };
+    let routes = [Route::Plain(method), Route::Body, Route::ExpectGaveUp, Route::ExpectRefused];
+    // (a) a fresh flow per prefix, arriving in the receive state by every route
+    for (pi, &p) in prefixes.iter().enumerate() {
+        let mut route = routes[(pi + hlen) % 4];
+        if lane {
+            route = Route::Plain(method);
+        }
+        let mut f = match recv_flow_via(route, &stream[..decided_at.min(stream.len())]) {
+            Some(f) if route != Route::ExpectRefused || p >= decided_at => f,
+            _ => {
+                route = Route::Plain(method);
+                recv_flow(method)
+            }
+        };
+        if p >= decided_at.min(hlen) {
+            rec.cov(&format!("route/{}", route.name()));
+        }
         rec.call();
         hookmon::arm(4 * p as u64 + 64);
         let r = f.try_response(&stream[..p]);
@@ -215,7 +290,7 @@ impl Property for P {
         "C05"
     }
     fn rule(&self) -> String {
-        "generated well-formed heads (1.0/1.1, status 101..999, empty/long/obs-text reasons, 0..128 fields, random token names, SP/HTAB whitespace, empty values, obs-text) rendered from a structure, followed by an arbitrary tail. Every prefix (all of them for heads <= 700 bytes or in the thorough tier; all token boundaries +-2, head/tail windows and 150 random ones otherwise) is offered to a fresh Flow<RecvResponse>: strict prefixes must give Ok((0, None)), the full head (+tail) must give exactly |H| consumed and the generated status/version/fields (Flow, Call and bare parser). One flow is also fed a growing window. A dedicated workload cuts 3xx heads after their Location line; the PartialRedirect hook attributes such acceptances. Limit workload: 126..200 fields. class = token class of the cut x after-Location.".into()
+        "generated well-formed heads (1.0/1.1, status 101..999, empty/long/obs-text reasons, 0..128 fields, random token names, SP/HTAB whitespace, empty values, obs-text) rendered from a structure, followed by an arbitrary tail. Every prefix (all of them for heads <= 700 bytes or in the thorough tier; all token boundaries +-2, head/tail windows and 150 random ones otherwise) is offered to a fresh Flow<RecvResponse> that reached that state by one of four routes (plain request, after a sent body, Expect given up, Expect refused by this very response): strict prefixes must give Ok((0, None)), the full head (+tail) must give exactly |H| consumed and the generated status/version/fields (Flow, Call and bare parser). One flow is also fed a growing window. A dedicated workload cuts 3xx heads after their Location line; the PartialRedirect hook attributes such acceptances. Limit workload: 126..200 fields. class = token class of the cut x after-Location.".into()
     }
     fn assumptions(&self) -> Vec<String> {
         vec![
@@ -225,15 +300,20 @@ impl Property for P {
     }
     fn workloads(&self, tier: Tier) -> Vec<Workload> {
         vec![
-            Workload::new("heads", tier.pick(2_000, 60_000), false, "random heads x prefixes"),
-            Workload::new("redirect-cuts", tier.pick(1_500, 40_000), false, "3xx heads with a Location followed by more fields, every prefix"),
-            Workload::new("field-limit", tier.pick(300, 5_000), false, "heads with 126..200 fields"),
+            if tier == Tier::Quick {
+                Workload::new("heads", 2_000, false, "random heads x prefixes (all prefixes for heads <= 700 bytes, boundaries +-2 and windows otherwise)")
+            } else {
+                Workload::new("heads-all-prefixes", 150_000, false, "random heads x every prefix")
+            },
+            Workload::new("redirect-cuts", tier.pick(1_500, 200_000), false, "3xx heads with a Location followed by more fields, every prefix"),
+            Workload::new("field-limit", tier.pick(300, 20_000), false, "heads with 126..200 fields"),
         ]
     }
     fn run_case(&self, wl: &str, idx: u64, seed: u64, rec: &mut Rec) {
         let mut rng = Rng::derive(seed, wl, idx);
         match wl {
             "heads" => head_case(&mut rng, false, false, rec),
+            "heads-all-prefixes" => head_case(&mut rng, true, false, rec),
             "redirect-cuts" => head_case(&mut rng, true, true, rec),
             _ => limit_case(&mut rng, rec),
         }
@@ -247,6 +327,9 @@ impl Property for P {
         .map(|k| (k.to_string(), 50))
         .collect();
         v.push(("cut/*".into(), 100_000));
+        for r in ["plain", "after-body", "expect-gave-up", "expect-refused"] {
+            v.push((format!("route/{}", r), 1000));
+        }
         v
     }
 }
